@@ -9,7 +9,7 @@
    Proofs/WritersDict.v: wf_db (keys, field names, roles unique up to case; every role has a person -- what the API
    builds), map_ids.  Proofs/WritersTree.v: parts_ok p := reparse_person p = Ok p, yaml_ok, xml_ok. *)
 From Pybtex Require Import Base.Prelude Base.PyChar Base.PyStr Model.BibtexStr Model.Names Model.Scanner Model.BibParser Model.Writers
-  Proofs.Writers Proofs.WritersDict Proofs.WritersTree Proofs.WritersQuote Proofs.WritersPerson.
+  Proofs.Writers Proofs.WritersDict Proofs.WritersTree Proofs.WritersQuote Proofs.WritersPerson Proofs.WritersChain.
 
 (* ---- identifier lower-casing changes nothing but the letter case of keys, entry types, field names, roles *)
 Theorem lower_only_case : forall d, wf_db d -> lower_db d = Ok (map_ids lower d).
@@ -108,3 +108,32 @@ Example ex_quote_quoted : balanced (s2l "A {B{C}} \""{o}") /\ quote (s2l "A {B{C
 Proof. vm_compute. auto. Qed.
 Example ex_plain_person : plain_person ex_person /\ plain_person knuth.
 Proof. split; repeat constructor; discriminate. Qed.
+
+(* ---- conversion chains through the tree formats (to_file; convert(); ...; parse_file): for every chain of
+   YAML / BibTeXML steps of any length, with or without identifier lower-casing, and every database of the common
+   domain (tree_ok = wf_db, yaml_ok, xml_ok), the chain ends with the data it started from: [expect] applies,
+   step by step, only "the preamble becomes one text" (YAML) / "the preamble is not carried" (BibTeXML) and,
+   when preserve_case is off, ASCII-lower on identifiers ...
+   Partial: chains containing a BibTeX step are not covered (bibtex_roundtrip is not proved). *)
+Theorem chain_roundtrip_trees_partial : forall enc fs pc d, Forall (fun f => f <> FBib) fs -> tree_ok d ->
+  chain enc fs pc d = Ok (expect fs pc d).
+Proof. exact chain_roundtrip_trees_pf. Qed.
+Print Assumptions chain_roundtrip_trees_partial.
+
+(* ... so the entries come back untouched with preserve_case ... *)
+Theorem chain_entries_preserved : forall fs d, wd_entries (expect fs true d) = wd_entries d.
+Proof. exact expect_entries_preserve. Qed.
+Print Assumptions chain_entries_preserved.
+
+(* ... and changed in nothing but the letter case of their identifiers without it *)
+Theorem chain_entries_lowered : forall f g r d, wd_entries (expect (f :: g :: r) false d) = wd_entries (map_ids lower d).
+Proof. exact expect_entries_lower. Qed.
+Print Assumptions chain_entries_lowered.
+
+Example ex_chain : tree_ok ex_db_lc /\
+  chain latex_enc [FYaml; FXml; FYaml] false ex_db_lc = Ok (expect [FYaml; FXml; FYaml] false ex_db_lc) /\
+  wd_entries (expect [FYaml; FXml; FYaml] false ex_db_lc) <> wd_entries ex_db_lc.
+Proof.
+  split; [|split; [vm_compute; reflexivity|intro H; discriminate H]].
+  repeat split; repeat constructor; cbn; try (intros [H|H]; try discriminate H; try contradiction); try tauto; try discriminate.
+Qed.
